@@ -1,6 +1,6 @@
 (* Dispatch table of the model entry points used by the correspondence check. *)
 From Coq Require Import ZArith NArith List String.
-From Cfi Require Import Glue.Sx Model.Version Model.Dll Model.DllRun Py.PrimEntry Model.LineRun Model.ReaderRun Model.IO Model.View.
+From Cfi Require Import Glue.Sx Model.Version Model.Dll Model.DllRun Py.PrimEntry Model.LineRun Model.ReaderRun Model.IO Model.View Model.World.
 Import ListNotations.
 Open Scope string_scope.
 
@@ -11,7 +11,7 @@ Definition entries : list (string * (sx -> sx)) :=
     ("PRIM", run_prim);
     ("FIELD", run_field); ("LINE", run_line);
     ("REGFILE", run_regfile); ("REGSTREAM", run_regstream); ("BLOCKFILE", run_blockfile); ("SECTIONFILE", run_sectionfile);
-    ("C17", run_C17); ("C20", run_C20) ].
+    ("C17", run_C17); ("C20", run_C20); ("C14", run_C14) ].
 
 Fixpoint find_entry (name : str) (es : list (string * (sx -> sx))) : option (sx -> sx) :=
   match es with
